@@ -5,7 +5,7 @@ OCAML = S.OCAML
 GO = S.GO
 FAMILIES = "reload,mixed,big".split(",")
 PROP = "props/C05.v"
-PROOFS = ["proofs/SupInv.v", "proofs/SupStop.v", "proofs/SupReload.v"]
+PROOFS = ["proofs/SupInv.v", "proofs/SupStop.v", "proofs/SupTrig.v", "proofs/SupGate.v", "proofs/SupOnce.v", "proofs/SupReload.v", "proofs/SupCount.v"]
 
 
 def run(run):
